@@ -27,6 +27,25 @@ def ordered_source(t, vec_term):
     return False
 
 
+def range_source(t, vec_term):
+    """t is the index range 0..vec.len() (every index once, ascending)"""
+    while t[0] == "call" and t[1] == "<I as core::iter::traits::collect::IntoIterator>::into_iter":
+        t = t[2][0]
+    if t[0] == "agg" and t[1] == "adt" and t[2] == "core::ops::range::Range":
+        f = dict(t[4])
+        return f.get("start") == ("const", "usize", 0) and f.get("end") == ("len", vec_term)
+    return False
+
+
+def indexed_elem(d, vec_term, item):
+    """d is a reference to vec[item] (Index::index / IndexMut::index_mut on the component vector)"""
+    if d[0] not in ("&", "&mut") or d[1][0] != "deref":
+        return False
+    c = d[1][1]
+    return c[0] == "call" and c[1].split("::")[-1] in ("index", "index_mut") and "Vec" in c[1] and \
+        c[2][0] in (("&", vec_term), ("&mut", vec_term)) and c[2][1] == item
+
+
 def mt_method(F, name, adt=MT):
     return F.one(name=name, impl_self_adt=adt, impl_trait=TL)
 
@@ -62,14 +81,16 @@ def check_loop_method(ctx, F, rule, name, mutable, adt=MT):
                     return True
             return False
         others = [e for e in calls(p, lambda e: True) if e not in nx and e not in comp
-                  and e["callee"] not in ORDERED_ITER and _escapes(e)]
+                  and e["callee"] not in ORDERED_ITER and _escapes(e)
+                  and not (e["fn"].get("name") in ("index", "index_mut") and "Vec" in e["callee"])]
         ctx.ob(rule, inst + "/no-other-effects", not others and not [e for e in p.events if e["kind"] == "store"],
                "merged %s must have no effect other than its components' %s; found %s"
                % (name, name, [e["callee"] for e in others]), body["span"], trace_of(p), what="other-effects")
         took = None
         for (t, v, site) in p.conds:
             if t[0] == "discr" and t[1][0] == "call" and "Iterator>::next" in t[1][1] or \
-                    (t[0] == "discr" and t[1][0] == "call" and t[1][1].endswith("Iterator::next")):
+                    (t[0] == "discr" and t[1][0] == "call" and t[1][1].endswith("Iterator::next")) or \
+                    (t[0] == "discr" and nx and t[1] == nx[0]["result"]):
                 took = v
         if took == 1:
             n_iter += 1
@@ -78,7 +99,8 @@ def check_loop_method(ctx, F, rule, name, mutable, adt=MT):
             if ok:
                 lv = nx[0]["descs"][0]
                 src = lv[1][3] if lv[0] == "&mut" and lv[1][0] == "loop" and len(lv[1]) > 3 else None
-                ok_src = src is not None and ordered_source(src, vec)
+                by_index = src is not None and range_source(src, vec)
+                ok_src = src is not None and (ordered_source(src, vec) or by_index)
                 ctx.ob(rule, inst + "/ordered-traversal", ok_src,
                        "components must be visited by an order-preserving traversal of self.%s (idiom table); "
                        "iterator is %s" % (tf, show(src) if src else show(lv)), body["span"], trace_of(p),
@@ -87,6 +109,8 @@ def check_loop_method(ctx, F, rule, name, mutable, adt=MT):
                 d = comp[0]["descs"]
                 elem = ("field", ("variant", nx[0]["result"], "Some"), "0")
                 ok_elem = d[0] in (("&", ("deref", elem)), ("&mut", ("deref", elem)))
+                if by_index:
+                    ok_elem = indexed_elem(d[0], vec, elem)
                 if mutable:
                     ok_args = ok_elem and d[1] == ("&", ("deref", ("param", 2)))
                 else:
@@ -271,7 +295,117 @@ def check_fold(ctx, F, rule, name, fold, adt=MT):
         okr = r == ("field", ("variant", f, "Some"), "0") or r == f
         ctx.ob(rule, inst + "/result-is-fold", okr, "the result must be the folded value itself; it is %s" % show(r),
                body["span"], trace_of(p), what="result-not-fold")
+    if n == 0:
+        # the same fold written as an explicit loop (possibly in a private helper taking the getter and the selection as
+        # closures): recognised row by row
+        n = _fold_loop_form(ctx, F, rule, name, fold, body, vec, tf)
     ctx.floor(rule, inst + " fold paths", n, 1)
+
+
+ORDERING = {255: "Less", -1: "Less", 0: "Equal", 1: "Greater"}
+
+
+def _fold_loop_form(ctx, F, rule, name, fold, body, vec, tf):
+    """acc = None; for each component c in order { v = c.<name>(); acc = Some(match acc { None => v, Some(cur) => pick }) }
+    with pick = v iff compare(cur, v) == Greater (minimum, first of equals kept) for min_by, and pick = cur iff
+    compare(cur, v) == Greater (maximum, last of equals kept) for max_by / max; an incomparable pair counts as Less (the
+    comparator's `unwrap_or(Less)`).  Every iteration row is checked; helpers and closures of the crate are inlined."""
+    inst = body["path"]
+    eng = pse.Engine(F, inline=lambda fn, bb: F.body_unit[bb["id"]][0] == F.body_unit[body["id"]][0]
+                     and bb.get("impl_trait") not in (TL, "core::cmp::Ord", "core::cmp::PartialOrd"), inline_loops=True)
+    try:
+        paths = eng.run(body)
+    except pse.Budget:
+        return 0
+    ctx.count_paths(paths, body)
+    rets = [p for p in paths if p.outcome == "return"]
+    accs = {p.ret[1][1] for p in rets if p.ret[0] == "field" and p.ret[1][0] == "variant" and p.ret[1][2] == "Some"
+            and p.ret[1][1][0] == "loop"}
+    if len(accs) != 1:
+        return 0
+    ACC = next(iter(accs))
+    hdr, l = ACC[1], ACC[2][1]
+    ok_init = ACC[3][0] == "agg" and ACC[3][3] == "None"
+    ctx.ob(rule, inst + "/fold-starts-empty", ok_init, "the running value must start as None; it starts as %s" % show(ACC[3]),
+           body["span"], what="fold-init-wrong")
+    cur = ("field", ("variant", ACC, "Some"), "0")
+    n = 0
+    for p in paths:
+        nx = [e for e in p.events if e["kind"] == "call" and e["fn"].get("name") == "next" and e["descs"]
+              and e["descs"][0][0] == "&mut" and e["descs"][0][1][0] == "loop" and e["descs"][0][1][1] == hdr]
+        if p.outcome != "backedge" or not nx:
+            continue
+        took = [v for (t, v, s) in p.conds if t[0] == "discr" and t[1] == nx[0]["result"]]
+        if took != [1]:
+            continue
+        lab = inst + "/fold-row[%s]" % ",".join(str(v) for (_, v, _) in p.conds[1:])
+        item = ("field", ("variant", nx[0]["result"], "Some"), "0")
+        src = nx[0]["descs"][0][1][3]
+        by_index = range_source(src, vec)
+        ctx.ob(rule, lab + "/ordered-traversal", by_index or ordered_source(src, vec),
+               "the fold must visit every component of self.%s in order; iterator is %s" % (tf, show(src)[:200]), body["span"],
+               trace_of(p), what="fold-not-over-all-components")
+        got = [e for e in p.events if e["kind"] == "call" and is_trait_call(e, TL, name)]
+        ok_get = len(got) == 1 and (indexed_elem(got[0]["descs"][0], vec, item) if by_index
+                                    else got[0]["descs"][0] in (("&", ("deref", item)),))
+        ctx.ob(rule, lab + "/reads-this-component", ok_get,
+               "each step must read %s() of the component being visited, once" % name, body["span"], trace_of(p),
+               what="mapper-wrong-getter")
+        if not ok_get:
+            continue
+        cand = got[0]["result"]
+        fin = [v for (k, v) in p.store.items() if k[0] == "L" and k[2] == l and
+               (v == ACC or (isinstance(v, tuple) and v and v[0] == "agg" and v[3] == "Some" and v[4][0][1] in (cur, cand)))]
+        had = next((v for (t, v, s) in p.conds if t == ("discr", ACC, pse.OPT_VARIANTS) or (t[0] == "discr" and t[1] == ACC)), None)
+        if len(fin) != 1 or had not in (0, 1):
+            ctx.ob(rule, lab + "/step-shape", False, "the running value of this step is not recognisable", body["span"],
+                   trace_of(p), what="fold-step-unknown")
+            continue
+        new = fin[0]
+        new = cur if new == ACC else new[4][0][1]
+        if had == 0:
+            okp = new == cand
+            want = "the first component's value"
+        else:
+            cmps = [e for e in p.events if e["kind"] == "call" and e["fn"].get("name") in ("partial_cmp", "total_cmp", "cmp")]
+            okp = len(cmps) == 1 and tuple(x[1] if x[0] == "&" else x for x in cmps[0]["descs"]) == (cur, cand)
+            order = None
+            if okp:
+                c = cmps[0]["result"]
+                is_opt = cmps[0]["fn"].get("name") == "partial_cmp"
+                payload = ("field", ("variant", c, "Some"), "0") if is_opt else c
+                some = next((v for (t, v, s) in p.conds if t[0] == "discr" and t[1] == c), None) if is_opt else 1
+                if some == 0:
+                    order = "Less"          # incomparable: unwrap_or(Ordering::Less)
+                else:
+                    for (t, v, s) in p.conds:
+                        if t[0] == "discr" and t[1] == payload and not isinstance(v, tuple):
+                            order = ORDERING.get(v)
+                        if t[0] == "discr" and t[1] == payload and isinstance(v, tuple) and v[0] == "not":
+                            rest = {255, 0, 1} - {x if x >= 0 else 255 for x in v[1]}
+                            if len(rest) == 1:
+                                order = ORDERING[next(iter(rest))]
+                            elif rest == {255, 0} or rest == {0, 255}:
+                                order = "not-Greater"
+                        if t[0] == "bin" and t[1] in ("Eq", "Ne") and t[2] == payload and pse.unit_variant(t[3]) and v in (0, 1):
+                            isv = (v == 1) == (t[1] == "Eq")
+                            nm = pse.unit_variant(t[3])[1]
+                            if isv:
+                                order = nm
+                            elif nm == "Greater":
+                                order = "not-Greater"
+            greater = order == "Greater"
+            decided = order in ("Less", "Equal", "Greater", "not-Greater")
+            if fold == "min_by":
+                okp = okp and decided and new == (cand if greater else cur)
+                want = "the candidate iff compare(current, candidate) is Greater (minimum, first of equals)"
+            else:
+                okp = okp and decided and new == (cur if greater else cand)
+                want = "the current value iff compare(current, candidate) is Greater (maximum, last of equals)"
+        ctx.ob(rule, lab + "/selects", okp, "merged %s: the running value must become %s; it becomes %s"
+               % (name, want, show(new)[:160]), body["span"], trace_of(p), what="fold-kind-wrong")
+        n += 1
+    return n
 
 
 def check_cycle(ctx, F, rule, adt=MT):
@@ -330,20 +464,38 @@ def _cycle_loop_form(ctx, F, rule, inst, body, paths, vec):
     if len(loops) != 1:
         return False
     R = loops[0].ret
-    hdr, l, first_payload = R[1], R[2][1], R[3]
+    hdr, l, first_value = R[1], R[2][1], R[3]
+
+    def getter_of(t):
+        """X when t is Timeline::cycle_duration(&*X)"""
+        if t[0] == "call" and t[1] == TL + "::cycle_duration" and len(t[2]) == 1 and t[2][0][0] == "&":
+            x = t[2][0][1]
+            return x[1] if x[0] == "deref" else x
+        return None
+
+    # the first element: either the mapped value itself (iter().map(cycle_duration)) or cycle_duration(first element)
+    mapped = True
+    first_payload = first_value
+    if getter_of(first_value) is not None:
+        mapped = False
+        first_payload = getter_of(first_value)
     if not (first_payload[0] == "field" and first_payload[1][0] == "variant" and first_payload[1][2] == "Some"):
         return False
     first = first_payload[1][1]
-    if not (first[0] == "call" and first[1].endswith("Iterator>::next") or first[1].endswith("Iterator::next")):
+    if not (first[0] == "call" and (first[1].endswith("Iterator>::next") or first[1].endswith("Iterator::next"))):
         return False
     recv = first[2][0]
     SRC = recv[1] if recv[0] == "&mut" else None
-    okm = SRC is not None and SRC[0] == "call" and SRC[1].endswith("Iterator::map") and ordered_source(SRC[2][0], vec)
+    if mapped:
+        okm = SRC is not None and SRC[0] == "call" and SRC[1].endswith("Iterator::map") and ordered_source(SRC[2][0], vec)
+    else:
+        okm = SRC is not None and ordered_source(SRC, vec)
     ctx.ob(rule, inst + "/all-components", bool(okm), "cycle_duration must range over all components (loop form)",
            body["span"], what="fold-not-over-all-components")
     if not okm:
         return True
-    mapper_is(ctx, F, rule, inst, SRC[2][1], "cycle_duration", body["span"])
+    if mapped:
+        mapper_is(ctx, F, rule, inst, SRC[2][1], "cycle_duration", body["span"])
     okc = True
     n_iter = 0
     for p in paths:
@@ -359,6 +511,8 @@ def _cycle_loop_form(ctx, F, rule, inst, body, paths, vec):
         lv = nx[1]["descs"][0]
         same_iter = lv[0] == "&mut" and lv[1][0] == "loop" and lv[1][1] == hdr and _peel_after(lv[1][3]) == SRC
         item = ("field", ("variant", nx[1]["result"], "Some"), "0")
+        if not mapped:
+            item = ("call", TL + "::cycle_duration", (("&", ("deref", item)),))
         dec = None
         for (t, v, s_) in p.conds:
             if t[0] == "bin" and t[1] in ("Eq", "Ne") and {t[2], t[3]} == {R, item}:
@@ -479,8 +633,14 @@ def check_wrapping(ctx, F, rule):
     ok = len(ps) == 1
     if ok:
         r = ps[0].ret
-        ok = r[0] == "call" and r[1].endswith("MergedTimeline::<T>::of") and r[2][0][0] == "agg" and \
-            r[2][0][1] == "array" and tuple(v for _, v in r[2][0][4]) == (("param", 1),)
+        arr = None
+        if r[0] == "call" and r[1].endswith("MergedTimeline::<T>::of"):
+            arr = r[2][0]                                  # of([t])
+        elif r[0] == "agg" and r[1] == "adt" and r[2] == MT:
+            v = dict(r[4]).get(timelines_field(F))
+            if v is not None and v[0] == "call" and v[1] == "vec-literal":
+                arr = v[2][0]                              # Self { timelines: vec![t] }
+        ok = arr is not None and arr[0] == "agg" and arr[1] == "array" and tuple(v for _, v in arr[4]) == (("param", 1),)
     ctx.ob(rule, "From<T> for MergedTimeline", ok, "wrapping a single timeline must be of([t])", fr["span"],
            what="from-wrong")
     tb = F.one(crate="mina_core", name="build", impl_self_adt=MT, impl_trait="mina_core::timeline::TimelineOrBuilder")
